@@ -196,7 +196,7 @@ def c16_scanners(ctx):
         for _ in range(ctx.q(4, 30)):
             rows += gen.twin_transparency(ctx.rng, kind, ctx.q(1200, 4000), to=to)
     run_script(ctx, rows, "twin-insertion")
-    canary(ctx, trace, corrupt_field("eqp", False, lambda r: r["op"] == "feed" and r["m"][0] // 16 != 11))
+    canary(ctx, trace, corrupt_field("eqp", False, lambda r: r["op"] == "feed" and r["m"][0] // 16 != 11 and r["m"][0] < 240))
     vacuity(ctx, ["feed.noncontrib", "twin.C16"])
 
 
